@@ -699,7 +699,7 @@ def run(run: Run):
                     'stub network (send_server_messages does not suspend; listeners are plain functions): the segments of the model are atomic']
     run.assumptions += ['a request is identified by its ticket: fewer than 2^32-2 tickets are drawn in a history (nowrap)',
                         'first step of a timer task happens at the instant of Timer.start() (no loop lag between start and first step)']
-    proved = run.prove(['tr_ticket'])
+    proved = run.prove(['tr_ticket', 'tr_search'])
 
     found = set()
     # listed findings first (deterministic KNOWN-FINDING lines)
@@ -777,6 +777,15 @@ def run(run: Run):
 
     # the real periodic wishlist task with the server-provided interval (monitor only)
     periodic_wishlist(run, found)
+    for kind in ('net', 'room', 'user'):
+        try:
+            bad = cancelled_creator(kind)
+        except Exception as e:
+            bad = [f'{type(e).__name__}: {e}']
+        run.case({'cancelled_creator': kind}, kind='cancelled-creator')
+        if bad and 'registered-request-without-running-timer' not in found:
+            found.add('registered-request-without-running-timer')
+            run.add_finding(Finding('registered-request-without-running-timer', bad[0], {'cancelled_creator': kind}, observed=bad))
 
 
 def periodic_wishlist(run: Run, found):
@@ -791,6 +800,44 @@ def periodic_wishlist(run: Run, found):
         if bad and 'periodic-wishlist' not in found:
             found.add('periodic-wishlist')
             run.add_finding(Finding('periodic-wishlist', bad[0], {'interval': ival, 'items': nitems, 'rounds': rounds}, observed=bad))
+
+
+def cancelled_creator(kind, tau=5):
+    """search() whose caller is cancelled while a coroutine listener of SearchRequestSentEvent is suspended: the request is
+    registered, so its timeout must still remove it (and report the removal) exactly once at the deadline.  -> list of problems"""
+    from aioslsk.events import SearchRequestSentEvent
+    h = Harness()
+    try:
+        h.settings.searches.send.request_timeout = tau
+        gate = h.loop.create_future()
+
+        async def slow_listener(event):
+            await gate
+        h._slow = slow_listener
+        h.bus.register(SearchRequestSentEvent, slow_listener)
+        fn = {'net': lambda: h.mgr.search('q'), 'room': lambda: h.mgr.search_room('room', 'q'), 'user': lambda: h.mgr.search_user('bob', 'q')}[kind]
+        task = h.loop.create_task(fn())
+        h.loop.run_ready(8)
+        registered = sorted(h.mgr.requests)
+        t0 = h.t()
+        task.cancel()
+        h.loop.run_ready(8)
+        h.loop.run_for(tau + 20)
+        h.settle()
+        bad = []
+        rem = [e for e in h.events if e[0] == 'removed']
+        for tk in registered:
+            got = [e[2] for e in rem if e[1] == tk]
+            if got != [t0 + tau]:
+                bad.append(f'request {tk} was registered at {t0} with timeout {tau} (its creator was cancelled while the Sent event was '
+                           f'being delivered) but its removal was reported at {got or "no time"}; requests afterwards: {sorted(h.mgr.requests)}')
+        if not registered:
+            bad.append('the request was not registered when the Sent event was delivered')
+        if h.loop.unhandled or any(e[0] in ('errkey', 'other') for e in h.events):
+            bad.append(f'errors: {[e for e in h.events if e[0] in ("errkey", "other")]}')
+        return bad
+    finally:
+        h.close()
 
 
 def periodic_one(ival, nitems, rounds):
@@ -845,6 +892,10 @@ def replay(rep) -> int:
         vals = [next(g) for _ in range(n)]
         bad = vals[-1] == first or not (1 <= vals[-1] <= MAXT)
         print(f'ticket_generator(): first ticket {first}, ticket after {n} more issues: {vals[-1]}')
+        return 1 if bad else 0
+    if 'cancelled_creator' in wit:
+        bad = cancelled_creator(wit['cancelled_creator'])
+        print('cancelled creator:', bad)
         return 1 if bad else 0
     if 'interval' in wit:
         bad = periodic_one(wit['interval'], wit['items'], wit['rounds'])
